@@ -54,3 +54,29 @@ Print Assumptions c14_spec_strict_partial.
 Print Assumptions c14_dom_many_labels.
 Print Assumptions c14_dom_gathergen.
 Print Assumptions c14_dom_witness.
+
+(* ---- the same for histories with user-written collectors exposing no families (the generator's overlap scenarios); dom14c = dom07c *)
+Require PV.Proofs.C07SpecCustom PV.Proofs.C14SpecCustom PV.Proofs.C07SpecCustomSub.
+Theorem c14_spec_of_model_custom : forall ops, C14SpecCustom.dom14c ops = true ->
+  spec_c14 ops (run world0 ops) = true \/ known_c14 ops (run world0 ops) = true.
+Proof. exact C14SpecCustom.c14_spec_model_custom. Qed.
+Theorem c14_spec_of_model_strict_custom : forall ops, C14SpecCustom.dom14c ops = true ->
+  mixed_kinds_registered ops (run world0 ops) = false -> spec_c14 ops (run world0 ops) = true.
+Proof. exact C14SpecCustom.c14_spec_strict_custom. Qed.
+Theorem c14_dom_contained_in_custom_dom : forall ops, dom14 ops = true -> C14SpecCustom.dom14c ops = true.
+Proof. exact C07SpecCustomSub.dom14_sub_dom14c. Qed.
+Example c14_dom_custom_gen : C14SpecCustom.dom14c C07SpecCustom.ex_custom_gen = true
+  /\ spec_c14 C07SpecCustom.ex_custom_gen (run world0 C07SpecCustom.ex_custom_gen) = true.
+Proof. exact C14SpecCustom.ex_custom_gen_c14. Qed.
+Example c14_dom_custom_accepted : C14SpecCustom.dom14c C07SpecCustom.ex_custom_accepted = true
+  /\ spec_c14 C07SpecCustom.ex_custom_accepted (run world0 C07SpecCustom.ex_custom_accepted) = true.
+Proof. exact C14SpecCustom.ex_custom_accepted_c14. Qed.
+Check c14_spec_of_model_custom : forall ops, C14SpecCustom.dom14c ops = true ->
+  spec_c14 ops (run world0 ops) = true \/ known_c14 ops (run world0 ops) = true.
+Check c14_spec_of_model_strict_custom : forall ops, C14SpecCustom.dom14c ops = true ->
+  mixed_kinds_registered ops (run world0 ops) = false -> spec_c14 ops (run world0 ops) = true.
+Print Assumptions c14_spec_of_model_custom.
+Print Assumptions c14_spec_of_model_strict_custom.
+Print Assumptions c14_dom_contained_in_custom_dom.
+Print Assumptions c14_dom_custom_gen.
+Print Assumptions c14_dom_custom_accepted.
